@@ -297,6 +297,12 @@ class AutoInline:
         b = self.world.get(cal)
         if b is None or b.get("kind") not in ("Fn", "AssocFn") or "::tests::" in cal:
             return None
+        if b.get("ret") == "bool":
+            # a predicate that searches (a loop with an early `return true`) stays a call: written out it would only scatter loop conditions
+            # over the caller's paths; rules that need it judge the predicate as a function (c09.membership_const)
+            from .facts import walk
+            if any(n.get("k") in ("loop",) or (n.get("k") == "match" and n.get("src") in ("for", "while")) for n in walk(b["body"])):
+                return None
         return b
 
 
@@ -371,6 +377,9 @@ class SymX:
         if isinstance(fv, tuple) and fv[0] == "def" and fv[1].split("::")[-1][:1].isupper() and fv[1] not in (self.inline.world or {}):
             return [(s, ("ctor", fv[1], list(vals)))]        # a tuple-variant / tuple-struct constructor used as a function
         if isinstance(fv, tuple) and fv[0] == "def":
+            inl = self.inline_call(fv[1], list(vals), s, e)         # a new helper passed as a function value is judged inlined like a called one
+            if inl is not None:
+                return inl
             node = dict(e, ty=FN_RET[fv[1]]) if (fv[1] in FN_RET and isinstance(e, dict)) else e
             t = ("call", fv[1], list(vals), node)
             s2 = s.fork()
@@ -476,6 +485,16 @@ class SymX:
     def expand_combinator(self, target, vals, s, e):
         """`x.map_or_else(on_none, on_some)`, `x.map_or(default, f)`, `x.unwrap_or_else(f)`: the two arms of the match they stand for."""
         name = target.split("::")[-1]
+        if target in ("core::bool::<impl bool>::then_some", "core::bool::<impl bool>::then") and len(vals) == 2:
+            # `c.then_some(v)` is `if c { Some(v) } else { None }` (`then` evaluates its closure on the true side only)
+            if name == "then_some":
+                yes = [(s.cond(("if", vals[0], True)), vals[1])]
+            else:
+                yes = self.apply_fn(vals[1], [], s.cond(("if", vals[0], True)), e)
+            if yes is not None:
+                if isinstance(vals[0], tuple) and vals[0][0] == "lit" and isinstance(vals[0][1], bool):
+                    return ([(s, ("ctor", "std::prelude::v1::Some", [vals[1]]))] if name == "then_some" else None) if vals[0][1] else [(s, ("ctor", "std::prelude::v1::None", []))]
+                return [(s2, ("ctor", "std::prelude::v1::Some", [v])) for s2, v in yes] + [(s.cond(("if", vals[0], False)), ("ctor", "std::prelude::v1::None", []))]
         is_res = target.startswith("std::result::Result::")
         is_opt = target.startswith("std::option::Option::")
         known = self.on_known_ctor(name, vals, s, e) if (is_res or is_opt) and vals else None
@@ -582,7 +601,8 @@ class SymX:
         for p in paths:
             v = p.ret
             w = v[1] if (isinstance(v, tuple) and v[0] == "await") else v
-            if p.kind in ("fall", "return") and is_call_t(w) and w[1] in ("std::result::Result::<T, E>::map", "std::option::Option::<T>::map") and len(w[2]) == 2:
+            tested = any(isinstance(c[1], tuple) and (c[1] is w or (c[1][0] == "call" and c[1][2] and c[1][2][0] is w)) for c in p.conds if len(c) > 1)
+            if p.kind in ("fall", "return") and not tested and is_call_t(w) and w[1] in ("std::result::Result::<T, E>::map", "std::option::Option::<T>::map") and len(w[2]) == 2:
                 x, f = w[2]
                 node = w[3] if len(w) > 3 else None
                 s = St(dict(p.env), list(p.conds), [t for t in p.trace if t is not w and not (is_call_t(t) and len(t) > 3 and t[3] is node and t[1] == w[1])])
@@ -796,6 +816,14 @@ class SymX:
                             s2 = St(dict(s.env), s.conds + p.conds, s.trace + shifted)
                             outs.append((s2, v))
                         continue
+                    if isinstance(fv, tuple) and fv[0] == "ctor" and not fv[2]:
+                        outs.append((s, ("ctor", fv[1], vals)))      # a variant constructor held in a variable (`let c = IppValue::Uri; c(text)`)
+                        continue
+                    if isinstance(fv, tuple) and fv[0] == "def":
+                        applied = self.apply_fn(fv, vals, s, e)
+                        if applied is not None:
+                            outs.extend(applied)
+                            continue
                     t = ("call", "<indirect>", [fv] + vals, e)
                 else:
                     if cal == "std::default::Default::default" and not vals:
@@ -829,6 +857,36 @@ class SymX:
                     dv = default_value(str(e.get("ty") or ""))
                     if dv is not None:
                         outs.append((s, dv))
+                        continue
+                if target == "std::iter::Extend::extend" and len(vals) == 2 and str(unwrap(e["args"][0]).get("ty") or "").startswith("std::option::Option<"):
+                    # `v.extend(opt)` is `if let Some(x) = opt { v.push(x) }` (for a map: `m.insert(k, v)` of the pair)
+                    rty = str(e["recv"].get("ty") or "").replace("&mut ", "").replace("&", "")
+                    for a_ in (e["recv"].get("adj") or []):
+                        rty = str(a_.get("to") or rty).replace("&mut ", "").replace("&", "")
+                    x = vals[1]
+                    head = x[1].split("::")[-1] if (isinstance(x, tuple) and x[0] == "ctor") else None
+                    pn = {"k": "ptuplestruct", "path": "std::prelude::v1::Some", "pats": [{"k": "bind", "name": "v", "id": -1}]}
+                    yes = [] if head == "None" else [(s if head == "Some" else s.cond(("match", x, "std::prelude::v1::Some(v)", True, pn, [], [])),
+                                                    x[2][0] if head == "Some" else ("proj", x, "Some.0"))]
+                    no = [] if head == "Some" else [s if head == "None" else s.cond(("match", x, "!std::prelude::v1::Some(v)", False, pn))]
+                    meth = None
+                    if rty.startswith("std::vec::Vec<"):
+                        meth = "std::vec::Vec::<T, A>::push"
+                    elif rty.startswith("std::collections::BTreeMap<"):
+                        meth = "std::collections::BTreeMap::<K, V, A>::insert"
+                    elif rty.startswith("std::collections::HashMap<"):
+                        meth = "std::collections::HashMap::<K, V, S, A>::insert"
+                    if meth is not None:
+                        for s_y, item in yes:
+                            if meth.endswith("::push"):
+                                args_ = [vals[0], item]
+                            else:
+                                args_ = [vals[0]] + (list(item[1]) if (isinstance(item, tuple) and item[0] == "tuple" and len(item[1]) == 2) else [("proj", item, "0"), ("proj", item, "1")])
+                            t = ("call", meth, args_, e)
+                            s2 = s_y.fork()
+                            s2.log(t)
+                            outs.append((s2, ("unit",)))
+                        outs.extend((s_n, ("unit",)) for s_n in no)
                         continue
                 lp = self.fold_as_loop(target, vals, s, e)
                 if lp is not None:
@@ -935,7 +993,7 @@ class SymX:
                     while cp.get("k") in ("pref", "pderef"):
                         cp = cp["p"]
                     if is_call_t(v) and v[1] in ("std::option::Option::<T>::map", "std::result::Result::<T, E>::map") and len(v[2]) == 2 and \
-                            isinstance(v[2][1], tuple) and v[2][1][0] == "closure" and cp.get("k") == "ptuplestruct" and \
+                            isinstance(v[2][1], tuple) and v[2][1][0] in ("closure", "def") and cp.get("k") == "ptuplestruct" and \
                             (cp.get("path") or "").split("::")[-1] in ("Some", "Ok") and len(cp["pats"]) == 1:
                         # `if let Some(y) = x.map(f)` is `if let Some(v) = x { let y = f(v); .. }`
                         x, good = v[2][0], (cp.get("path") or "").split("::")[-1]
@@ -952,6 +1010,21 @@ class SymX:
                                 outs.append((s_f, ("unit",)))
                             continue
                     vs = pat_variant_set(c["pat"])
+                    known = v[1].split("::")[-1] if (isinstance(v, tuple) and v[0] == "ctor" and v[1].split("::")[-1] in ("Some", "None", "Ok", "Err")) else None
+                    if known is not None and vs is not None and vs[0] != "*":
+                        # the value's constructor is known on this path (an inlined helper returned it): only one side exists
+                        names_ = {q.split("::")[-1] for q in vs[0]}
+                        if known not in names_:
+                            if "e" in e:
+                                outs.extend(self.ev(e["e"], s))
+                            else:
+                                outs.append((s, ("unit",)))
+                            continue
+                        if vs[1]:
+                            s_t = s.fork()
+                            self.bind(c["pat"], v, s_t)
+                            outs.extend(self.ev(e["t"], s_t))
+                            continue
                     p_t = p_f = None
                     if vs is not None and vs[0] != "*":
                         p_t = ("in", frozenset(vs[0]))
@@ -1086,6 +1159,10 @@ class SymX:
                         self.done.append(Path(s, "try", ("err?", inner_err[2][0])))
                     elif isinstance(inner_err, tuple) and inner_err[0] == "proj" and str(inner_err[2]).startswith("Err."):
                         self.done.append(Path(s, "try", ("err?", inner_err[1])))     # `Err(e) => Err(e)` of x, then `?`: x's own error
+                    elif head == "Err" and isinstance(inner_err, tuple) and inner_err[0] in ("ctor", "call"):
+                        # an inlined helper *constructed* this error (`return Err(InvalidCollection)`) and the caller's `?` hands it on:
+                        # the same exit as the `return Err(..)` written in the caller
+                        self.done.append(Path(s, "return", v))
                     else:
                         self.done.append(Path(s, "try", ("err?", v)))
                     continue
@@ -1181,18 +1258,37 @@ class SymX:
                 self._collect_loop(s2, s.env, body_paths, itv, e)
                 outs.append((s2, ("unit",)))
             return outs
+        tm = self.ev_tuple_match(e, st)
+        if tm is not None:
+            return tm
         outs = []
         for s, v in self.ev(e["scrut"], st):
             excluded = set()      # variants wholly matched by earlier unguarded arms
             earlier = []          # patterns of earlier *unguarded* arms: reaching a later arm proves these did not match
             earlier_guarded = []  # patterns of earlier guarded arms: a later arm is also reached when one matched and its guard failed
             lit_arms = []         # (literal term) of earlier unguarded literal arms: `match x { 1 => a, _ => b }` is `if x == 1 { a } else { b }`
-            for i, arm in enumerate(e["arms"]):
+            arms_ = []
+            for arm in e["arms"]:
+                ap0 = arm["pat"]
+                if ap0.get("k") == "por" and len(ap0["pats"]) <= 4 and any(n.get("k") == "bind" for q in ap0["pats"] for n in walk_pat(q)) and \
+                        all(q.get("k") in ("pstruct", "ptuplestruct") and q.get("path") for q in ap0["pats"]):
+                    # `A { x: ref c } | B { y: ref c } => body` binds c differently per alternative: the arm is written out once per alternative
+                    for q in ap0["pats"]:
+                        arms_.append(dict(arm, pat=q))
+                else:
+                    arms_.append(arm)
+            for i, arm in enumerate(arms_):
                 pr = show(arm["pat"])
                 ap = arm["pat"]
                 litv = None
                 if ap.get("k") == "pexpr" and isinstance(ap.get("e"), dict) and ap["e"].get("k") == "lit" and isinstance(ap["e"].get("v"), (int, bool)) and not ap["e"].get("neg"):
                     litv = ("lit", ap["e"]["v"])
+                elif ap.get("k") == "pexpr" and isinstance(ap.get("e"), dict) and ap["e"].get("k") == "path" and \
+                        str(ap.get("ty")) in ("u8", "u16", "u32", "u64", "usize", "i8", "i16", "i32", "i64", "isize", "char") and ap["e"].get("res", {}).get("r") == "def":
+                    # a named integer constant as a pattern: `match tag { BEG_COLLECTION => .. }` is `if tag == BEG_COLLECTION { .. }`
+                    cv = self.ev(ap["e"], s)
+                    if len(cv) == 1:
+                        litv = cv[0][1]
                 if litv is not None and "guard" not in arm and isinstance(v, tuple) and v[0] in ("call", "cast", "var", "field", "bin", "ok?", "un", "await"):
                     s_i = s
                     if isinstance(litv[1], bool):
@@ -1249,6 +1345,81 @@ class SymX:
                     break           # .. and this arm always does: later arms are unreachable
         return outs
 
+    def ev_tuple_match(self, e, st):
+        """`match (a, b) { (P, 4) => x, (Q, _) => y, _ => z }`: each arm is the conjunction of its component tests - a variant pattern is a
+        match condition on that component, a literal an equality test, `_` nothing - so the arm reads like `P if b == 4 => x`."""
+        sc = unwrap(e["scrut"])
+        if sc.get("k") != "tup" or not (2 <= len(sc.get("es", [])) <= 3):
+            return None
+        n = len(sc["es"])
+
+        def comps(pat):
+            while pat.get("k") in ("pref", "pderef"):
+                pat = pat["p"]
+            if pat.get("k") == "ptuple" and len(pat["pats"]) == n:
+                return pat["pats"]
+            if pat.get("k") == "wild":
+                return [pat] * n
+            return None
+        if any(comps(a["pat"]) is None for a in e["arms"]):
+            return None
+        outs = []
+        for s, vals in self.seq(sc["es"], st):
+            excluded = [set() for _ in range(n)]
+            for i, arm in enumerate(e["arms"]):
+                qs = comps(arm["pat"])
+                s_i, feasible, total_all, tests = s, True, True, []
+                for j, q in enumerate(qs):
+                    qq = q
+                    while qq.get("k") in ("pref", "pderef"):
+                        qq = qq["p"]
+                    if qq.get("k") == "wild" or (qq.get("k") == "bind" and "sub" not in qq):
+                        tests.append(None)
+                        continue
+                    if qq.get("k") == "pexpr" and isinstance(qq.get("e"), dict) and qq["e"].get("k") == "lit" and isinstance(qq["e"].get("v"), (int, bool)) and not qq["e"].get("neg"):
+                        lv = qq["e"]["v"]
+                        s_i = s_i.cond(("if", vals[j], lv) if isinstance(lv, bool) else ("if", ("bin", "Eq", vals[j], ("lit", lv)), True))
+                        tests.append("lit")
+                        total_all = False
+                        continue
+                    vs = pat_variant_set(qq)
+                    if vs is None or vs[0] == "*":
+                        return None         # a component pattern this reading does not cover: fall back to the opaque tuple match
+                    poss = ("in", frozenset(vs[0] - excluded[j]))
+                    if not feasible_variants(s_i.conds, vals[j], poss):
+                        feasible = False
+                        break
+                    s_i = s_i.cond(("match", vals[j], show(qq), i, qq, [], [], poss))
+                    tests.append((vs, j))
+                    if not vs[1]:
+                        total_all = False
+                if not feasible:
+                    continue
+                if all(t is None for t in tests):
+                    # the catch-all arm: whatever the enum components have not been matched as so far
+                    for j in range(n):
+                        if excluded[j] or any(isinstance(c, tuple) and c[0] == "match" and c[1] is vals[j] for c in s.conds):
+                            poss = ("notin", frozenset(excluded[j]))
+                            if not feasible_variants(s_i.conds, vals[j], poss):
+                                feasible = False
+                                break
+                            s_i = s_i.cond(("match", vals[j], "_", i, {"k": "wild"}, [], [], poss))
+                    if not feasible:
+                        continue
+                for j, q in enumerate(qs):
+                    self.bind(q, vals[j], s_i)
+                if "guard" in arm:
+                    for s_g, g in self.ev(arm["guard"], s_i):
+                        outs.extend(self.ev(arm["body"], s_g.cond(("guard", g, True))))
+                else:
+                    outs.extend(self.ev(arm["body"], s_i))
+                    # this arm takes every value of its variants when all other components are wildcards
+                    vt = [t for t in tests if isinstance(t, tuple)]
+                    if len(vt) == 1 and all(t is None or t is vt[0] for t in tests) and vt[0][0][1]:
+                        excluded[vt[0][1]] |= vt[0][0][0]
+                self._guard(len(outs))
+        return outs
+
     def _collect_loop(self, st, entry_env, body_paths, itv, e):
         """`let mut v = Vec::new(); for x in it { v.push(f(x)) }` builds what `it.map(f).collect()` builds: after such a loop the
         vector stands for ('call', '<collect>', [it, f(elem)]) - the elements of `it`, each wrapped by f, in order."""
@@ -1262,8 +1433,8 @@ class SymX:
         recv, item = pushes[0][2]
         if not (is_call_t(recv) and recv[1] in ("std::vec::Vec::<T>::new", "std::vec::Vec::<T>::with_capacity", "std::vec::Vec::<T, A>::new", "std::vec::Vec::<T, A>::with_capacity")):
             return
-        inside = {id(x) for x in subterms(item)}
-        if any(t is not pushes[0] and id(t) not in inside for t in tr):
+        inside = {id(x[3]) for x in subterms(item) if is_call_t(x) and len(x) > 3}
+        if any(t is not pushes[0] and not (len(t) > 3 and id(t[3]) in inside) for t in tr):
             return          # the body does something else as well
         for k, v in entry_env.items():
             if v is recv:
@@ -1325,6 +1496,17 @@ def default_value(ty):
     if ty.startswith("std::collections::HashMap<"):
         return ("call", "std::collections::HashMap::<K, V>::new", [], None)
     return None
+
+
+def walk_pat(p):
+    if isinstance(p, dict):
+        yield p
+        for v in p.values():
+            if isinstance(v, (dict, list)):
+                yield from walk_pat(v)
+    elif isinstance(p, list):
+        for x in p:
+            yield from walk_pat(x)
 
 
 def pat_variant_set(pat):
